@@ -215,6 +215,7 @@ where
 
     // Track spawned hedge tasks
     let mut hedges_spawned: usize = 0;
+    let mut errors_received: usize = 0;
     let mut primary_error: Option<S::Error> = None;
 
     // Get delay for first hedge
@@ -259,9 +260,11 @@ where
                                     if attempt == 0 {
                                         primary_error = Some(e.clone());
                                     }
-                                    // Check if all attempts exhausted
-                                    if hedges_spawned + 1 >= max_attempts {
-                                        // All spawned, check if this was the last result
+                                    errors_received += 1;
+                                    // All attempts have been started and every one of them
+                                    // has reported an error (attempts still in flight may
+                                    // yet succeed, so spawning the last hedge is not enough)
+                                    if errors_received >= max_attempts {
                                         config.listeners.emit(&HedgeEvent::AllFailed {
                                             name: config.name.clone(),
                                             attempts: hedges_spawned + 1,
